@@ -125,6 +125,8 @@ fn main() {
                 r.cur_case = None;
                 sw.run(&mut r, wd.progress.clone(), stride, offset);
             }
+            r.cur_case = None;
+            replay::check_order_pool(&mut r);
             let mut s = r.summary();
             s["cases"] = serde_json::json!(n);
             s["samples"] = serde_json::json!(samples);
